@@ -12,6 +12,7 @@ func init() {
 			return []runner.Job{
 				{Harness: "c20.paths", Mode: "plain", Shards: 16},
 				{Harness: "c20.reuse", Mode: "plain", Shards: 8},
+				{Harness: "c20.sched", Mode: "shim", Shards: 2},
 			}
 		},
 	})
